@@ -11,6 +11,7 @@ import (
 	"bufio"
 	"encoding/hex"
 	"fmt"
+	"io"
 	"os"
 	"os/exec"
 	"strconv"
@@ -75,6 +76,75 @@ type prop struct {
 	configs func(tier string) []map[string]string // process-level environments (index = cfg)
 	child   childFn
 	shard   int // max cases per child process
+	// gen/run style (preferred): a case is its field list; run executes the real code on it.
+	gen   func(r *Rng, i int, cfg int, tier string) []string
+	run   func(fields []string) []string
+	envOf func(fields []string) map[string]string // process environment a stored case needs (replay)
+}
+
+func genRunChild(name string, p prop) childFn {
+	return func(out *Out, seed uint64, start, count int, cfg int, tier string) {
+		for i := start; i < start+count; i++ {
+			r := NewRng(seed, uint64(i)*7+11)
+			cf := p.gen(r, i, cfg, tier)
+			if cf == nil {
+				continue
+			}
+			out.Emit(name, cf, p.run(cf))
+		}
+		for k, v := range noteCounts {
+			out.Note(k, v)
+		}
+	}
+}
+
+var noteCounts = map[string]int{}
+
+func note(k string) { noteCounts[k]++ }
+
+func unhexList(l []string) []string {
+	r := make([]string, len(l))
+	for i, x := range l {
+		b, _ := hex.DecodeString(x)
+		r[i] = string(b)
+	}
+	return r
+}
+
+// <name>-one: replay of stored cases read from stdin (same line format); the process
+// environment the case needs is re-established by re-executing this binary.
+func runOne(name string, p prop) {
+	data, _ := io.ReadAll(os.Stdin)
+	w := bufio.NewWriterSize(os.Stdout, 1<<20)
+	defer w.Flush()
+	out := &Out{w: w}
+	for _, line := range strings.Split(string(data), "\n") {
+		parts := strings.Split(line, "\t")
+		k := -1
+		for i, x := range parts {
+			if x == "|" {
+				k = i
+			}
+		}
+		if k < 1 {
+			continue
+		}
+		cf := unhexList(parts[1:k])
+		if os.Getenv("VERIF_ONE_CHILD") == "" && p.envOf != nil {
+			self, _ := os.Executable()
+			cmd := exec.Command(self, name+"-one")
+			cmd.Env = append(os.Environ(), "VERIF_ONE_CHILD=1")
+			for k, v := range p.envOf(cf) {
+				cmd.Env = append(cmd.Env, k+"="+v)
+			}
+			cmd.Stdin = strings.NewReader(line + "\n")
+			cmd.Stderr = os.Stderr
+			b, _ := cmd.Output()
+			w.Write(b)
+			continue
+		}
+		out.Emit(name, cf, p.run(cf))
+	}
 }
 
 var props = map[string]prop{}
@@ -93,7 +163,7 @@ func baseEnv(scratch string) []string {
 }
 
 func main() {
-	if len(os.Args) < 4 && !(len(os.Args) == 2 && os.Args[1] == "value-one") {
+	if len(os.Args) < 4 && !(len(os.Args) == 2 && strings.HasSuffix(os.Args[1], "-one")) {
 		fmt.Fprintln(os.Stderr, "usage: harness <prop> <seed> <count> [tier]")
 		os.Exit(2)
 	}
@@ -130,6 +200,12 @@ func main() {
 		w.Flush()
 		return
 	}
+	if strings.HasSuffix(name, "-one") {
+		if p, ok := props[strings.TrimSuffix(name, "-one")]; ok && p.run != nil {
+			runOne(strings.TrimSuffix(name, "-one"), p)
+			return
+		}
+	}
 	if strings.HasSuffix(name, "-child") {
 		p, ok := props[strings.TrimSuffix(name, "-child")]
 		if !ok {
@@ -143,6 +219,9 @@ func main() {
 		}
 		w := bufio.NewWriterSize(os.Stdout, 1<<20)
 		out := &Out{w: w}
+		if p.child == nil {
+			p.child = genRunChild(strings.TrimSuffix(name, "-child"), p)
+		}
 		p.child(out, seed, atoi(os.Args[3]), atoi(os.Args[4]), atoi(os.Args[5]), tier)
 		w.Flush()
 		return
